@@ -1,6 +1,7 @@
 package checks
 
 import (
+	"bytes"
 	"encoding/json"
 	"fmt"
 	"math/rand"
@@ -37,6 +38,19 @@ func jsonRoundTrip(src string) (before, after []GT, doc *ast.QueryDocument, ok b
 	var d2 ast.QueryDocument
 	if err := json.Unmarshal(b, &d2); err != nil {
 		return nil, nil, nil, false, "json.Unmarshal of the library's own encoding: " + err.Error()
+	}
+	// the same JSON value in other spellings - indented, and with the members of every object in another
+	// order (as any JSON tool between two processes may write it) - must decode to the same document
+	want := gtListString(ProjectQuery(&d2))
+	for _, alt := range jsonRespellings(b, len(src)) {
+		var d3 ast.QueryDocument
+		if err := json.Unmarshal(alt.text, &d3); err != nil {
+			return nil, nil, nil, false, "json.Unmarshal of the " + alt.name + " encoding: " + err.Error()
+		}
+		if got := gtListString(ProjectQuery(&d3)); got != want {
+			// report it as the round trip result: the comparison with the original tree shows the difference
+			return ProjectQuery(d), ProjectQuery(&d3), d, true, ""
+		}
 	}
 	return ProjectQuery(d), ProjectQuery(&d2), d, true, ""
 }
@@ -176,4 +190,30 @@ func checkC19(c *core.Ctx) {
 				GrammarMismatch{Kind: "tree", Source: "JsonCodec_Trace", Text: text, Expected: gtListString(opsBeforeFrags(before)), Observed: gtListString(after)})
 		}
 	}
+}
+
+type jsonAlt struct {
+	name string
+	text []byte
+}
+
+// jsonRespellings: one alternative spelling per call (chosen by k), to keep the exhaustive replays cheap
+func jsonRespellings(b []byte, k int) []jsonAlt {
+	switch k % 3 {
+	case 0:
+		var buf bytes.Buffer
+		if json.Indent(&buf, b, "", "  ") == nil {
+			return []jsonAlt{{"indented", buf.Bytes()}}
+		}
+	case 1:
+		var v any
+		dec := json.NewDecoder(bytes.NewReader(b))
+		dec.UseNumber()
+		if dec.Decode(&v) == nil {
+			if out, err := json.Marshal(v); err == nil { // encoding/json writes map members in sorted key order
+				return []jsonAlt{{"re-ordered", out}}
+			}
+		}
+	}
+	return nil
 }
